@@ -117,6 +117,9 @@ public:
         {
             m_resetFunctor(*iterator);
         }
+
+        // No object is handed out any more...
+        m_numObjectsOnStack = 0;
     }
 
 #if defined(APACHE_XALAN_C_VERIF)
